@@ -205,6 +205,11 @@ def oracle_stream(case, outs):
                     rule = "duplicate-differs" if len(set(decl)) > 1 else "mismatch"
                     problems.append((f"event with stream_ended=True after {body} body bytes but content-length declared {decl}",
                                      {"oracle": "content-length", "rule": rule}))
+        # "when a stream ends": the step that carries the FIN either closes the
+        # connection or reports the end of the stream
+        if carries_fin and not any(m.group(2).endswith("end=1") for m in EV_RE.finditer(head[3:])):
+            problems.append((f"FIN received, connection not closed, no event with stream_ended=True ({op!r} -> {out!r})",
+                             {"oracle": "stream-end", "rule": "fin-unreported"}))
         # the stream has ended (FIN seen), the connection is still open
         if fin_seen and first is not None:
             decl = declared_lengths(first)
